@@ -30,12 +30,12 @@ const (
 	VNaN
 	VTuple
 	VNil
-	VOpaque // a non-nil value whose content is irrelevant (error objects)
-	VList   // an immutable table (package-level composite literal of constants)
-	VStruct // an immutable record inside such a table (fields in F)
-	VUnk    // an unknown scalar (scanner positions, raw input): arithmetic yields unknown, any test on it is undecided
-	VBits   // an integer some of whose bits are symbolic receiver bits (B, LSB first); see hybrid.go
-	VMap    // an immutable map with string keys (package-level table): entries in F
+	VOpaque   // a non-nil value whose content is irrelevant (error objects)
+	VList     // an immutable table (package-level composite literal of constants)
+	VStruct   // an immutable record inside such a table (fields in F)
+	VUnk      // an unknown scalar (scanner positions, raw input): arithmetic yields unknown, any test on it is undecided
+	VBits     // an integer some of whose bits are symbolic receiver bits (B, LSB first); see hybrid.go
+	VMap      // an immutable map with string keys (package-level table): entries in F
 	VFieldPtr // pointer to receiver byte I (hybrid runs)
 	VVarPtr   // pointer to a local variable (hybrid runs)
 )
